@@ -199,6 +199,19 @@ pub fn delete_artifact(store: &TensorStore, artifact_id: &str) -> Result<()> {
         .get(&meta_key)
         .map_err(|_| BlobError::NotFound(artifact_id.to_string()))?;
 
+    // A recount from the finished artifacts must see this delete either not at all or entirely
+    let _gate = crate::gc::recount_gate()
+        .read()
+        .unwrap_or_else(std::sync::PoisonError::into_inner);
+
+    // The metadata record is the artifact: remove it first. Removing a key succeeds for exactly
+    // one caller, so of two concurrent deletes of one artifact only the winner goes on to release
+    // the chunk references (releasing them twice would starve the other artifacts that share
+    // the chunks).
+    store
+        .delete(&meta_key)
+        .map_err(|_| BlobError::NotFound(artifact_id.to_string()))?;
+
     // Get chunks and decrement refs
     if let Some(chunks) = get_pointers(&tensor, "_chunks") {
         for chunk_key in chunks {
@@ -229,9 +242,6 @@ pub fn delete_artifact(store: &TensorStore, artifact_id: &str) -> Result<()> {
         let idx_key = format!("_blob:idx:ct:{ct}:{artifact_id}");
         let _ = store.delete(&idx_key);
     }
-
-    // Delete metadata
-    store.delete(&meta_key)?;
 
     Ok(())
 }
